@@ -128,13 +128,16 @@ func (r *RequestContext) Cookie(name string) string {
 		return ""
 	}
 
-	for _, cookie := range strings.Split(values, ";") {
-		if cookieName, cookieValue, ok := strings.Cut(cookie, "="); ok && strings.TrimSpace(cookieName) == name {
-			return strings.TrimSpace(cookieValue)
-		}
+	// the same parsing rules, as used by the http based services, have to be applied (e.g.
+	// the double quotes, a value may be enclosed in, are not part of the value)
+	req := http.Request{Header: http.Header{"Cookie": []string{values}}}
+
+	cookie, err := req.Cookie(name)
+	if err != nil {
+		return ""
 	}
 
-	return ""
+	return cookie.Value
 }
 
 func (r *RequestContext) Body() any {
